@@ -480,8 +480,9 @@ def do_replay(path):
     if v.get("arm64_sim"):
         a = v["arm64_sim"]
         rc, out, _ = run([sys.executable, os.path.join(VERIF, "tools", "arm64sim.py"),
-                          os.path.join(vlib.REPO, "internal", "bytealg", a["file"]), a["s"] or "", str(a["c"]), str(a["align"])], timeout=120)
-        print("arm64 interpreter on internal/bytealg/%s, CountString(s, %d), s at address = %d mod 32: %s" % (a["file"], a["c"], a["align"], out.strip()))
+                          os.path.join(vlib.REPO, "internal", "bytealg", a["file"]), a["s"] or "", str(a["c"]), str(a["align"]),
+                          a.get("entry", ""), str(a.get("junk", 0))], timeout=120)
+        print("arm64 interpreter on internal/bytealg/%s, %s(s, %d), s at address = %d mod 32: %s" % (a["file"], a.get("entry"), a["c"], a["align"], out.strip()))
         return 0
     if case and v.get("isa_probe"):
         # a call that executes an instruction of a feature the flags report absent: run it again under the probe
